@@ -35,7 +35,7 @@ Example y_committed_moves : committed_of (p2_step (y_at 77) (y_l 77)) 1 <> commi
 Proof. split; [vm_compute; discriminate|apply y_at_reach]. Qed.
 
 (* step 98 moves Applied.Index from 0 to 1 and sends the change of proposal (1,1) (hypotheses of
-   C02_applied_moves_by_successor, C02_sent_in_order, C02_never_sent_before_merged_partial, C10_election_id,
+   C02_applied_moves_by_successor / _from_prev, C02_sent_in_order, C02_sent_from_prev, C02_never_sent_before_merged, C10_election_id,
    C10_no_change_before_resync) *)
 Example y_applied_moves : applied_of (p2_step (y_at 98) (y_l 98)) 1 <> applied_of (y_at 98) 1.
 Proof. vm_compute. discriminate. Qed.
@@ -70,11 +70,18 @@ Proof.
 Qed.
 
 (* world 77: proposal (1,1) is in Commit-Doing with Committed.Index = PrevIndex = 0; the Commit guard holds there
-   (non-vacuously) and in the world that sends (hypothesis shape of C02_never_sent_before_merged_partial, which asks
-   for it in every reachable world) *)
+   (non-vacuously) and in the world that sends (hypotheses of C02_commit_guard; commit_merged_of_guard asks for the guard
+   in every reachable world, which Proofs/P2_CursorGuard.v proves) *)
 Example y_guard : exists P : Prop2,
   props (y_at 77) !! (1, 1) = Some P /\ p_commit P = Some Doing /\ commit_guard (y_at 77) /\ commit_guard (y_at 98).
 Proof.
   eexists. split; [vm_compute; reflexivity|]. split; [vm_compute; reflexivity|].
   split; apply commit_guardb_spec; vm_compute; reflexivity.
 Qed.
+
+(* world 98 has two proposals on target 1, the older one INITIALIZED, distinct PrevIndexes (hypotheses of C02_open_is_last,
+   C02_unique_prev, C02_cursors_ordered) *)
+Example y_chain : exists (P Q : Prop2) (C : Cfg),
+  props (y_at 98) !! (1, 1) = Some P /\ props (y_at 98) !! (1, 2) = Some Q /\ cfgs (y_at 98) !! 1 = Some C /\
+  p_init P = Some Done /\ p_init Q = Some Done /\ p_prev P = 0 /\ p_prev Q = 1 /\ p_next P = 2 /\ c_proposed C = 2.
+Proof. eexists _, _, _. repeat split; vm_compute; reflexivity. Qed.
